@@ -125,6 +125,13 @@ PROGRAMS = [
     ("def f(x):\n    return '%-5s|%05d' % (x, 3)\n", "f('ab')", ["use_fstrings"]),
     ("def f(x):\n    return '%.1f and %s' % (1.26, x)\n", "f('ab')", ["use_fstrings"]),
     ("def f(x):\n    return '%d%%' % x\n", "f(3)", ["use_fstrings"]),
+    # positional-to-keyword rewrite of a call that also passes keywords and a **mapping
+    ("def g(a, b, c, d, e, f_, g_, h, i, j, k, verbose=False, **opts):\n    return (a, b, c, d, e, f_, g_, h, i, j, k, verbose, tuple(sorted(opts.items())))\n"
+     "def f(opts):\n    return g(1, 2, 3, 4, 5, 6, 7, 8, 9, 10, 11, verbose=True, **opts)\n", "f({'z': 1})", ["too_many_positional_args"]),
+    ("def g(a, b, c, d, e, f_, g_, h, i, j, k, *, flag):\n    return (a, b, c, d, e, f_, g_, h, i, j, k, flag)\ndef f():\n    return g(1, 2, 3, 4, 5, 6, 7, 8, 9, 10, 11, flag=0)\n", "f()", ["too_many_positional_args"]),
+    # an unused ignore comment at the end of a line that also carries code: only the comment goes
+    ("def f(y):\n    z = y * 2  # static analysis: ignore[undefined_name]\n    return z\n", "f(2)", ["unused_ignore"]),
+    ("def f(y):\n    # static analysis: ignore[undefined_name]\n    z = y * 2\n    return z  # static analysis: ignore\n", "f(2)", ["unused_ignore"]),
 ]
 
 
